@@ -8,6 +8,7 @@
   of the advisory (`re`: `none` = does not compile).  Core Lean only.
 -/
 import ClairModel.Model.VerRpm
+import ClairModel.Model.VerDeb
 
 namespace ClairModel.Matchers
 open ClairModel.Order ClairModel.VerCommon
@@ -100,5 +101,37 @@ def vulnerableRhel (g : RhelGate) (p : Pkg) (v : Vuln) : Out :=
 /-- rhel/rhcc/matcher.go: `pkgVer.LessThan(fixedInVer)`, whatever `FixedInVersion` is. -/
 def vulnerableRhcc (p : Pkg) (v : Vuln) : Out :=
   .ok (decide (VerRpm.cmpStr p.version v.fixed = .lt))
+
+/-- `v1.LessThan(v2)` of go-deb-version inside a matcher: may not return. -/
+def debLess (v1 v2 : VerDeb.Version) : Out :=
+  match VerDeb.compare v1 v2 with
+  | none => .hang
+  | some o => .ok (decide (o = .lt))
+
+/-- debian/matcher.go: `""` = no fix yet (reported), `"0"` = not affected. -/
+def vulnerableDebian (p : Pkg) (v : Vuln) : Out :=
+  if v.fixed = [] then .ok true
+  else if v.fixed = ['0'] then .ok false
+  else
+    match VerDeb.newVersion p.version with
+    | none => .err
+    | some v1 =>
+      match VerDeb.newVersion v.fixed with
+      | none => .err
+      | some v2 => debLess v1 v2
+
+/-- ubuntu/matcher.go: `""` = no fix yet; a fix that *prints* as `"0"`
+    (`0`, `0:0`, ` 0 `) is reported for every parsable package version. -/
+def vulnerableUbuntu (p : Pkg) (v : Vuln) : Out :=
+  if v.fixed = [] then .ok true
+  else
+    match VerDeb.newVersion p.version with
+    | none => .err
+    | some v1 =>
+      match VerDeb.newVersion v.fixed with
+      | none => .err
+      | some v2 =>
+        if v2.toStr = ['0'] then .ok true
+        else debLess v1 v2
 
 end ClairModel.Matchers
